@@ -193,6 +193,53 @@ def run(ctx):
                "my_node_id" in origins(g, own[0].args[1]).fields,
                "extend(..) sites: %s" % ext, site=g.loc(), key="C30.4:own-node-only")
 
+    ctx.guarded(lambda: rule_intersection_loop(ctx), "C30.5")
+
+
+def rule_intersection_loop(ctx):
+    """C30.5 — compute_intersection tests *every* own topic: the loop over the hashed own topics is left only when
+    the iterator is exhausted, every iteration asks `remote_hashes.contains(own hash)`, and a hit inserts the own
+    topic with the index of that very element.  (An early exit makes the result depend on how many topics each side
+    has: the two peers no longer agree on the intersection.)"""
+    from mir import branches_on, edge_dominates
+    from facts import op_place
+    b = ctx.body(CI)
+    loops = [c for c in sem_calls(b) if c.is_(NEXT_IT) and "desugar:ForLoop" in (c.term.get("mac") or [])]
+    if not ctx.ob("C30.5", "compute_intersection is one loop over the own hashed topics", len(loops) == 1,
+                  "%d for-loops" % len(loops), site=b.loc(), trivial=True):
+        return
+    lp = loops[0]
+    names = deep_calls(b, lp.args[0])
+    ctx.ob("C30.5", "the loop iterates hash_vector(local_topics)", HV in names, "iterates %s" % sorted(n.rsplit("::", 1)[-1] for n in names)[:5],
+           site=lp.loc(), key="C30.5:iterates-own-hashes")
+    none_e = some_e = None
+    for br in branches_on(b, lp.result, lp.done_bb):
+        none_e, some_e = br.edge("none") or none_e, br.edge("some") or some_e
+    oks = [bb for bb, k, pl, rv, st in b.assigns() if pl.local == 0 and not pl.proj and rv["k"] == "agg" and rv.get("variant") == "Ok"]
+    exhaustive = bool(none_e and oks) and all(bb not in b.reachable(lp.done_bb, avoid_edges={none_e}) for bb in oks)
+    ctx.ob("C30.5", "the loop ends only when every own topic was examined", exhaustive,
+           "compute_intersection can return Ok without exhausting the iterator over its own hashed topics (early `break` / "
+           "return): topics beyond that point are never matched, so the two peers compute different intersections",
+           site=lp.loc(), key="C30.5:no-early-exit")
+    cont = [c for c in sem_calls(b) if c.name.endswith("HashSet::contains")]
+    ins = [c for c in sem_calls(b) if c.name.endswith("HashSet::insert")]
+    ok_c = bool(cont and some_e) and b.must_pass({cont[0].bb}, frm=some_e[1], to=[lp.bb])
+    ctx.ob("C30.5", "every iteration tests the own hash against the remote hashes", ok_c and
+           any(p == 2 for p, _ in __import__("mir").deep_locals(b, cont[0].args[0])[1]),
+           "contains() is bypassed on some path through the loop body or does not query the remote hashes", site=lp.loc(),
+           key="C30.5:contains-every-iteration")
+    ok_i = False
+    if cont and ins:
+        for br in branches_on(b, cont[0].result, cont[0].done_bb):
+            e = br.edge("true")
+            if e and edge_dominates(b, e, ins[0].bb):
+                ok_i = True
+    ctx.ob("C30.5", "a topic is added exactly behind a hit", ok_i and len(ins) == 1, "insert sites %d" % len(ins), site=b.loc(),
+           key="C30.5:insert-behind-hit")
+
+
+NEXT_IT = "core::iter::traits::iterator::Iterator::next"
+
 
 MANIFEST = {
     "category": "other",
